@@ -23,12 +23,13 @@ def kt_items(B, A, bcols, rcols, n, ycols, tag):
     """A: n x n, bcols/rcols/ycols: lists of columns (each a list of n)"""
     O = B.O
     items = []
-    for c, (b, r, y) in enumerate(zip(bcols, rcols, ycols)):
-        Ar = matvec(O, A, r, n)
-        items.append((f'{tag}solution[{c}]', 'same', r, [O.add(Ar[i], b[i]) for i in range(n)]))
-        Ay = matvec(O, A, y, n)
-        pre = [O.le(O.add(Ay[i], b[i]), y[i]) for i in range(n)]
-        items.append((f'{tag}least[{c}]', 'implies', pre, [O.le(r[i], y[i]) for i in range(n)]))
+    with B.oracle_ctx():
+        for c, (b, r, y) in enumerate(zip(bcols, rcols, ycols)):
+            Ar = matvec(O, A, r, n)
+            items.append((f'{tag}solution[{c}]', 'same', r, [O.add(Ar[i], b[i]) for i in range(n)]))
+            Ay = matvec(O, A, y, n)
+            pre = [O.le(O.add(Ay[i], b[i]), y[i]) for i in range(n)]
+            items.append((f'{tag}least[{c}]', 'implies', pre, [O.le(r[i], y[i]) for i in range(n)]))
     return items
 
 
@@ -111,7 +112,8 @@ def run_multi(B, case, elems, yelems):
     items = []
     if case['entry'] == 'multi_mv':
         r = multi_mv(a, b, transpose=tr)
-        want = matvec(B.O, A, bv, N)
+        with B.oracle_ctx():
+            want = matvec(B.O, A, bv, N)
         got = [B.O.zero] * N
         got = list(got)
         for k in KEYS:
